@@ -253,14 +253,18 @@ def mc_chunks(run, maxlen):
 def c07(run):
     run.rule = ("MC: the streaming lexer machine BclLexer (window, refill arithmetic, line table) equals the whole-input lexer BclLex on every byte string "
                 "of length <= L over an 18-byte alphabet under every partition, with and without an interposed empty chunk (L=3 quick, 4 thorough). "
-                "GEN: every concatenation of N lexemes from a 33-lexeme pool of boundary-relevant spellings (N=2 quick, 3 thorough) x every set of <= 2 cut points "
+                "GEN: every concatenation of N lexemes from a 33-lexeme pool of boundary-relevant spellings (N=2; thorough adds a seeded sample of 300 000 triples) x every set of <= 2 cut points "
                 "x a zero-byte read before chunk 0/1/2 x last chunk with/without EOF, and every lexeme pair behind a comment line placing the real 4096-byte page "
                 "boundary at every offset; ParseFile through a scripted FileInput must equal Parse on the whole input in error, diagnostics and dump bytes. "
                 "TV: the lexer goroutine's recorded events (chunks received, offsets given to the line table, tokens emitted) of ParseFile on random sources in random small reads "
                 "are judged by Trace_Lexer against the machine run on the same chunks. Non-trivial = at least one cut (or a page boundary) ; distinct by case.")
     mc_chunks(run, 3 if run.quick else 4)
-    run.gen_replay("Gen_Chunks", cfg(constants=dict(Faithful=False, Scope="cuts", NLex=2 if run.quick else 3), invariants=("EmitCase", "Agree")),
+    run.gen_replay("Gen_Chunks", cfg(constants=dict(Faithful=False, Scope="cuts", NLex=2), invariants=("EmitCase", "Agree")),
                    ["replay-chunks"], "C07:cuts")
+    if not run.quick:
+        # triples of lexemes are too many to enumerate with all cut sets (~6e7): a seeded sample of them
+        run.gen_replay("Gen_Chunks", cfg(constants=dict(Faithful=False, Scope="cuts", NLex=3), invariants=("EmitCase", "Agree")),
+                       ["replay-chunks"], "C07:cuts3", simulate=10 ** 9, depth=6, workers=1, max_cases=300000, timeout=2400)
     run.gen_replay("Gen_Chunks", cfg(constants=dict(Faithful=False, Scope="page", NLex=2), invariants=("EmitCase",)), ["replay-chunks"], "C07:page")
     tv_lexer(run, "C07:lexer", 600 if run.quick else 6000)
     run.exhaustive = True
